@@ -10,6 +10,7 @@
  R10.4 a query writes nothing but the cache and subdivisions (= R08.4).
 """
 import ast
+import math
 
 from verifkit import affine, cache
 from verifkit.core import Outcome
@@ -27,6 +28,71 @@ U = ast.unparse
 LOWER = ("polygon.Point2D", "curve.BezierCurve", "curve.PlanarCurve")
 
 
+def signed_length_law(ctx, cls, fsrc, filler):
+    """Transformation law of a cache whose value is +-(length) with the sign of the enclosed area, and its check on the
+    in-place transformations of `cls` by abstract runs (W): after move / rotate / scale the cached value must be reset
+    (None) or equal the transformed value -- unchanged under isometries, multiplied by sign(xs*ys)*|xs| when
+    |xs| == |ys|, and not expressible from the old value otherwise.
+    Returns {method qname: None (verified) | text of the counterexample}; {} when the cache is not of this kind."""
+    from fractions import Fraction as Fr
+    from verifkit.absrun import Obj, Runner, StandIn
+    from verifkit.finite import Raised, Undecided
+    called = {t.qname for n in ast.walk(filler.node) for t in ctx.typer.of(filler).targets(n)}
+    if not ({"jordancurve.IntegrateJordan.lenght", "jordancurve.IntegrateJordan.area"} <= called):
+        return {}
+
+    class V(StandIn):
+        def move(self, *a, **k):
+            return self
+
+        scale = rotate = move
+
+    def hook(rn, ev, call, cname, recv, args, kwargs):
+        if cname in ("Point2D", "isinstance"):
+            return True if cname == "isinstance" else tuple(args)
+        return NotImplemented
+    res = {}
+    for name in ("move", "rotate", "scale"):
+        fns = ctx.model.lookup(cls, name)
+        if not fns:
+            continue
+        fn = fns[0]
+        if name == "move":
+            cases = [((Fr(3), Fr(-4)), lambda c: c)]
+        elif name == "rotate":
+            cases = [((0.75,), lambda c: c), ((30.0, True), lambda c: c)]
+        else:
+            cases = []
+            for xs in (Fr(-3), Fr(-1), Fr(1), Fr(2)):
+                for ys in (Fr(-2), Fr(-1), Fr(1), Fr(2), Fr(3)):
+                    if abs(xs) == abs(ys):
+                        cases.append(((xs, ys), (lambda c, xs=xs, ys=ys: (1 if xs * ys > 0 else -1) * abs(xs) * c)))
+                    else:
+                        cases.append(((xs, ys), None))
+        verdict = None
+        for args, law in cases:
+            for c0 in (Fr(10), Fr(-7)):
+                vs = tuple(V() for _ in range(3))
+                S = Obj("J", vertices=vs, segments=tuple(Obj(f"s{i}", ctrlpoints=(vs[i], vs[(i + 1) % 3])) for i in range(3)),
+                        **{fsrc: c0})
+                try:
+                    Runner(ctx, set(), hook, ext={"np.asarray": float, "math.radians": math.radians}).call_fn(fn, [S] + list(args))
+                except (Undecided, Raised) as ex:
+                    verdict = verdict or f"not interpretable: {ex}"
+                    continue
+                got = S.__dict__.get(fsrc)
+                if got is None:
+                    continue
+                if law is None:
+                    verdict = f"{name}{tuple(map(str, args))} keeps the cached value {got} although a non-uniform scaling " \
+                              f"changes the length by a factor that depends on the shape"
+                elif got != law(c0):
+                    verdict = f"{name}{tuple(map(str, args))} turns the cached {c0} into {got}; the transformed curve has " \
+                              f"{law(c0)} (a reflection reverses the orientation, i.e. the sign)"
+        res[fn.qname] = verdict
+    return res
+
+
 def r10_1(ctx):
     out = Outcome("R10.1", "every lazily cached field is reset after each write to the state it is derived from, on "
                            "every normal path of every method (isometries of the points excepted, derived by R09.1)",
@@ -41,9 +107,22 @@ def r10_1(ctx):
         if (cls, mangled) in seen:
             continue
         seen.add((cls, mangled))
-        cc = cache.coherence(ctx, cls, mangled, fsrc, filler)
+        # incremental updates of the cache (self.F *= k) are accepted only where the transformation law verifies them
+        laws = signed_length_law(ctx, cls, fsrc, filler)
+        cc = cache.coherence(ctx, cls, mangled, fsrc, filler, trusted_updates=[q for q, v in laws.items() if v is None])
         out.note(f"cache {cls}.{fsrc}: filled in {filler.qname}; isometries exempt: {cc.exempt_isometries}; "
                  f"composite sharing: {cc.composite}")
+        for q, v in sorted(laws.items()):
+            if q in cc.updates or v is not None:
+                fnq = ctx.model.funcs[q]
+                if v is None:
+                    out.ok(q, f"incremental update of the cached {fsrc.strip('_')} agrees with the transformation law",
+                           where=fnq.where())
+                elif v.startswith("not interpretable"):
+                    out.undecided(q, f"cached {fsrc.strip('_')} across the transformation: {v}", where=fnq.where())
+                else:
+                    out.bad(q, f"the cached {fsrc.strip('_')} kept across the transformation is not the value of the "
+                               f"transformed curve", where=fnq.where(), detail=v)
         inherited, own_bad = [], 0
         for q, fn in sorted(cc.kmethods.items()):
             exits = cc.tables[q][(cache.Mb, False)] | cc.tables[q][(cache.N, False)]
